@@ -169,7 +169,7 @@ class _Repr:
             color = None
 
         if color is None:
-            colors = theme['level_colors']
+            colors = theme['level_colors'] if 'level_colors' in theme else []
             color = colors[level] if level < len(colors) else GREY
 
         table.new_row(color)
